@@ -298,6 +298,7 @@ class GeckoAsyncSpaMan(ABC, AsyncTasks):
         This API will connect to the specified spa using the supplied descriptor"""
         assert self._facade is None
         spa: Optional[GeckoAsyncSpa] = None
+        failed = False
 
         try:
             self._spa_name = spa_descriptor.name
@@ -310,8 +311,18 @@ class GeckoAsyncSpaMan(ABC, AsyncTasks):
             if self._spa_state == GeckoSpaState.SPA_READY:
                 self._facade = GeckoAsyncFacade(self._spa, self)
 
+        except Exception:
+            failed = True
+            raise
+
         finally:
-            if spa is not None and self._spa is not spa:
+            if failed and spa is not None and self._spa is spa:
+                # The attempt ended with an exception of its own, it will never be
+                # completed and the next attempt replaces self._spa without looking
+                # at it, so release what this one opened (endpoint, tasks)
+                await spa.disconnect()
+                self._spa = None
+            elif spa is not None and self._spa is not spa:
                 # A reset took this spa away while it was still connecting, so
                 # release whatever the attempt opened after that (endpoint, tasks)
                 await spa.disconnect()
